@@ -1,6 +1,8 @@
 """C08  Linear scoring is the exact first-order log-likelihood ratio around the UBM."""
 import copy
 import math
+import os
+import tempfile
 
 import numpy as np
 
@@ -120,6 +122,27 @@ def run(chk):
             gmap = np.asarray(linear_scoring(models, mapm, sarg, off_arg, norm))
             if not np.array_equal(gmap, ga):
                 chk.fail("passing a MAP-adapted machine as the UBM does not give the scores of its prior", ctx)
+            # a MAP machine that went through a file stands for its prior just the same
+            fd, pth = tempfile.mkstemp(suffix=".h5", prefix="c08_")
+            os.close(fd)
+            try:
+                mapm.save(pth)
+                back = GMMMachine.from_hdf5(pth, ubm=ubm)
+            finally:
+                os.remove(pth)
+            gback = np.asarray(linear_scoring(models, back, sarg, off_arg, norm))
+            if not np.array_equal(gback, ga):
+                chk.fail("a MAP-adapted machine saved and read back (from_hdf5 with its prior) no longer gives the scores of its prior when passed as the UBM", ctx)
+            # an ML machine is its own reference even when it was constructed with a `ubm` argument (warm start from another model)
+            seed_m = make_gmm(w, umu + 3.0 * np.sqrt(uvar), uvar * 2.0)
+            warm = GMMMachine(n_gaussians=C, trainer="ml", ubm=seed_m)
+            warm.weights, warm.means = np.array(ubm.weights), np.array(ubm.means)
+            warm.variance_thresholds = np.array(ubm.variance_thresholds)
+            warm.variances = np.array(ubm.variances)
+            gwarm = np.asarray(linear_scoring(models, warm, sarg, off_arg, norm))
+            chk.count(1, key=("ml-machine-with-ubm-argument",))
+            if not np.array_equal(gwarm, ga):
+                chk.fail("an ML machine constructed with a ubm argument is scored against that other model instead of itself when passed as the UBM", ctx)
             # ... and keeps standing for it when the prior is trained further / re-parameterised AFTER the MAP machine was built
             ubm2 = copy.deepcopy(ubm)
             mapm2 = GMMMachine(n_gaussians=C, trainer="map", ubm=ubm2)
